@@ -1,5 +1,6 @@
 from __future__ import absolute_import
 
+import errno
 import os
 import threading
 
@@ -47,11 +48,21 @@ def _get_storage_file(context, command_set, path):
     file_name = '{}.dcm'.format(command_set.AffectedSOPInstanceUID)
     full_name = os.path.join(path, file_name)
     i = 0
-    while os.path.exists(full_name):
-        i += 1
-        full_name = '{}_{}'.format(full_name, i)
+    while True:
+        # create the file exclusively: two associations storing the same
+        # instance at the same time must not end up with the same file
+        try:
+            handle = os.open(full_name, os.O_RDWR | os.O_CREAT | os.O_EXCL |
+                             getattr(os, 'O_BINARY', 0))
+        except OSError as exc:
+            if exc.errno != errno.EEXIST:
+                raise
+            i += 1
+            full_name = '{}_{}'.format(full_name, i)
+        else:
+            break
 
-    ds = open(full_name, 'w+b')
+    ds = os.fdopen(handle, 'w+b')
     start = ds.tell()
     try:
         applicationentity.write_meta(ds, command_set, context.supported_ts)
